@@ -43,6 +43,8 @@ def describe(B, c):
         return 'call(%s)' % n
     if k == 'discr':
         return 'discr(%s)' % describe(B, c[1])
+    if k in ('payload', 'try'):
+        return describe(B, c[1]) + '?'
     return k
 
 
@@ -84,7 +86,7 @@ def check_casts(ctx, B, rule, include_float=True, reviewed=None):
             ctx.ok(rule, inst, 'value range [%s, %s] fits %s' % (rng[0], rng[1], rv['to']), where)
         elif inst in reviewed:
             ctx.ok(rule, inst, 'reviewed: ' + reviewed[inst], where)
-        elif c not in R.facts_at(bb) and R.mentions(bb, c):
+        elif R.uninterpreted_mentions(bb, c):
             ctx.undecided(rule, inst, 'a dominating condition mentions the value but its range [%s, %s] '
                           'could not be shown to fit %s' % (rng[0], rng[1], rv['to']), where)
         else:
@@ -339,3 +341,343 @@ def produced_errors(P, fn_path, err_adt, _seen=None, depth=0):
                 if a['k'] == 'c' and 'fn' in a and a['fn'].startswith(err_adt + '::'):
                     res.setdefault(a['fn'].rsplit('::', 1)[1], 'constructor passed as function')
     return res
+
+
+# ------------------------------------------------------------------ PANIC ----
+
+PANIC_FNS = ('core::panicking::panic', 'core::panicking::panic_fmt', 'core::panicking::panic_explicit', 'core::panicking::panic_display',
+             'core::panicking::unreachable_display', 'core::panicking::assert_failed', 'std::rt::begin_panic', 'core::panicking::panic_nounwind',
+             'std::rt::panic_fmt', 'core::panicking::panic_const', 'core::option::unwrap_failed', 'core::option::expect_failed',
+             'core::result::unwrap_failed', 'std::process::abort', 'std::process::exit', 'core::panicking::panic_str_2015')
+UNWRAPS = ('core::option::Option::<T>::unwrap', 'core::option::Option::<T>::expect', 'core::result::Result::<T, E>::unwrap',
+           'core::result::Result::<T, E>::expect', 'core::result::Result::<T, E>::unwrap_err', 'core::result::Result::<T, E>::expect_err')
+# partial APIs of std / bytes: method suffix -> what must hold
+PARTIAL = {
+    'bytes::buf::buf_impl::Buf::get_u8': ('remaining', 1), 'bytes::buf::buf_impl::Buf::get_u16': ('remaining', 2),
+    'bytes::buf::buf_impl::Buf::get_u32': ('remaining', 4), 'bytes::buf::buf_impl::Buf::get_u64': ('remaining', 8),
+    'bytes::buf::buf_impl::Buf::get_i32': ('remaining', 4), 'bytes::buf::buf_impl::Buf::get_f64': ('remaining', 8),
+    'bytes::buf::buf_impl::Buf::copy_to_slice': ('remaining', 'dst'), 'bytes::buf::buf_impl::Buf::advance': ('remaining', 'arg1'),
+    'core::slice::<impl [T]>::copy_from_slice': ('len_eq',), 'core::slice::<impl [T]>::split_at': ('le_len', 1),
+    'core::slice::<impl [T]>::split_at_mut': ('le_len', 1), 'alloc::vec::Vec::<T, A>::remove': ('lt_len', 1),
+    'alloc::vec::Vec::<T, A>::swap_remove': ('lt_len', 1), 'alloc::vec::Vec::<T, A>::insert': ('le_len', 1),
+    'alloc::vec::Vec::<T, A>::split_off': ('le_len', 1), 'alloc::vec::Vec::<T, A>::truncate': None,
+    'bytes::bytes::Bytes::slice': ('range_len',), 'bytes::bytes::Bytes::split_to': ('le_len', 1), 'bytes::bytes::Bytes::split_off': ('le_len', 1),
+    'bytes::bytes_mut::BytesMut::split_to': ('le_len', 1), 'bytes::bytes_mut::BytesMut::split_off': ('le_len', 1),
+    'core::num::<impl i64>::abs': ('not_min',), 'core::num::<impl i32>::abs': ('not_min',),
+    'alloc::string::String::remove': ('lt_len', 1), 'core::str::<impl str>::split_at': ('le_len', 1),
+}
+INDEXABLE = ('alloc::vec::Vec<', '[', '&[', 'bytes::bytes::Bytes', 'bytes::bytes_mut::BytesMut', 'alloc::string::String', 'str',
+             'alloc::collections::vec_deque::VecDeque<')
+
+
+def _is_index_call(t):
+    g, r = callee_of(t)
+    if g in ('core::ops::index::Index::index', 'core::ops::index::IndexMut::index_mut'):
+        return True
+    return False
+
+
+def _range_arg(B, op):
+    """classify an index argument: ('int', operand) | ('to', end) | ('from', start) | ('range', start, end) |
+    ('incl', start, end) | ('full',) | ('other', desc)"""
+    ty = None
+    if op['k'] in ('cp', 'mv'):
+        ty = B.local_ty(op['pl']['l']) if not op['pl'].get('p') else None
+    elif op['k'] == 'c':
+        ty = op.get('ty')
+    if ty in ('usize',):
+        return ('int', op)
+    o = B.origin(op)
+    if o[0] == 'agg' and o[1]['ak'] == 'adt':
+        adt = o[1]['adt']
+        ops = o[1]['ops']
+        if adt.endswith('::RangeTo'):
+            return ('to', ops[0])
+        if adt.endswith('::RangeFrom'):
+            return ('from', ops[0])
+        if adt.endswith('::Range'):
+            return ('range', ops[0], ops[1])
+        if adt.endswith('::RangeFull'):
+            return ('full',)
+        if adt.endswith('::RangeToInclusive'):
+            return ('to_incl', ops[0])
+    if o[0] == 'call' and o[1] and o[1].endswith('RangeInclusive::<Idx>::new'):
+        t = B.blocks[o[2]]['t']
+        return ('incl', t['args'][0], t['args'][1])
+    if ty and ('usize' == ty):
+        return ('int', op)
+    if o[0] in ('const',) and isinstance(o[1], int):
+        return ('int', op)
+    c = canon(B, op)
+    if op['k'] in ('cp', 'mv') and (B.local_ty(op['pl']['l']) == 'usize'):
+        return ('int', op)
+    return ('other', str(o)[:80])
+
+
+def panic_sites(B, R=None):
+    """Enumerate panic-capable sites of body B: list of dict(kind, bb, desc, check) where check(R) -> (ok, detail, mentioned)."""
+    sites = []
+    live = B.live_blocks()
+    for bb in sorted(live):
+        blk = B.blocks[bb]
+        t = blk['t']
+        if t['k'] == 'assert':
+            mk = t['mk']
+            if mk == 'bounds':
+                ln, ix = t['mops']
+                sites.append({'kind': 'bounds', 'bb': bb, 'desc': 'index %s < len %s' % (describe(B, canon(B, ix)), describe(B, canon(B, ln))),
+                              'need': ('lt', canon(B, ix), canon(B, ln))})
+            elif mk == 'overflow':
+                a, b_ = t['mops']
+                sites.append({'kind': 'overflow', 'bb': bb, 'desc': '%s(%s,%s)' % (t.get('bop'), describe(B, canon(B, a)), describe(B, canon(B, b_))),
+                              'need': ('arith', t.get('bop'), a, b_)})
+            elif mk == 'overflow_neg':
+                sites.append({'kind': 'overflow', 'bb': bb, 'desc': 'Neg(%s)' % describe(B, canon(B, t['mops'][0])), 'need': ('neg', t['mops'][0])})
+            elif mk in ('div0', 'rem0'):
+                sites.append({'kind': 'div0', 'bb': bb, 'desc': '%s by %s' % (mk, describe(B, canon(B, t['mops'][0]))), 'need': ('nonzero', t['mops'][0])})
+            continue
+        if t['k'] != 'call':
+            continue
+        g, r = callee_of(t)
+        names = [x for x in (g, r) if x]
+        if _is_index_call(t):
+            base_ty = t['aty'][0] if t.get('aty') else ''
+            bty = base_ty.replace('&mut ', '').replace('&', '')
+            if 'HashMap' in bty or 'BTreeMap' in bty or 'DashMap' in bty:
+                sites.append({'kind': 'map-index', 'bb': bb, 'desc': 'map[key] on %s' % bty.split('<')[0], 'need': ('never',)})
+                continue
+            ra = _range_arg(B, t['args'][1])
+            basec = canon(B, t['args'][0])
+            lenc = ('len', basec)
+            import re
+            m = re.match(r'^\[[^;]+; (\d+)\]$', bty)
+            if m:
+                lenc = ('const', int(m.group(1)))
+            d = describe(B, basec)
+            if ra[0] == 'int':
+                sites.append({'kind': 'index', 'bb': bb, 'desc': '%s[%s]' % (d, describe(B, canon(B, ra[1]))), 'need': ('lt', canon(B, ra[1]), lenc)})
+            elif ra[0] == 'to':
+                sites.append({'kind': 'slice', 'bb': bb, 'desc': '%s[..%s]' % (d, describe(B, canon(B, ra[1]))), 'need': ('le', canon(B, ra[1]), lenc)})
+            elif ra[0] == 'to_incl':
+                sites.append({'kind': 'slice', 'bb': bb, 'desc': '%s[..=%s]' % (d, describe(B, canon(B, ra[1]))), 'need': ('lt', canon(B, ra[1]), lenc)})
+            elif ra[0] == 'from':
+                sites.append({'kind': 'slice', 'bb': bb, 'desc': '%s[%s..]' % (d, describe(B, canon(B, ra[1]))), 'need': ('le', canon(B, ra[1]), lenc)})
+            elif ra[0] == 'range':
+                sites.append({'kind': 'slice', 'bb': bb, 'desc': '%s[%s..%s]' % (d, describe(B, canon(B, ra[1])), describe(B, canon(B, ra[2]))),
+                              'need': ('range', canon(B, ra[1]), canon(B, ra[2]), lenc)})
+            elif ra[0] == 'incl':
+                sites.append({'kind': 'slice', 'bb': bb, 'desc': '%s[%s..=%s]' % (d, describe(B, canon(B, ra[1])), describe(B, canon(B, ra[2]))),
+                              'need': ('range_incl', canon(B, ra[1]), canon(B, ra[2]), lenc)})
+            elif ra[0] == 'full':
+                pass
+            else:
+                sites.append({'kind': 'index', 'bb': bb, 'desc': '%s[?]' % d, 'need': ('unknown', ra[1])})
+            continue
+        if any(n in UNWRAPS for n in names):
+            recv = canon(B, t['args'][0])
+            sites.append({'kind': 'unwrap', 'bb': bb, 'desc': '%s(%s)' % (g.rsplit('::', 1)[1], describe(B, recv)), 'need': ('unwrap', t)})
+            continue
+        if any(n in PANIC_FNS or n.startswith('core::panicking::panic_const::') for n in names):
+            sites.append({'kind': 'panic', 'bb': bb, 'desc': 'explicit %s' % g.rsplit('::', 1)[1], 'need': ('unreachable',)})
+            continue
+        for n in names:
+            if n in PARTIAL and PARTIAL[n] is not None:
+                sites.append({'kind': 'partial', 'bb': bb, 'desc': '%s(%s)' % (n.rsplit('::', 1)[1], ','.join(describe(B, canon(B, a)) for a in t['args'][:2])),
+                              'need': ('partial', n, t)})
+                break
+    return sites
+
+
+def discharge(B, R, site):
+    """-> (verdict, detail) with verdict in 'ok' | 'bad' | 'undecided'."""
+    bb = site['bb']
+    need = site['need']
+    k = need[0]
+
+    def ment(*cs):
+        # a failed proof is only 'undecided' when some dominating condition about these values
+        # has a form the interval/relational analysis does not interpret
+        return any(R.uninterpreted_mentions(bb, c) for c in cs if c[0] not in ('const',))
+
+    if R.infeasible(bb):
+        return 'ok', 'site is unreachable: its dominating conditions are contradictory'
+    def ment_len(lenc):
+        # a guard can only help when it says something about the length (or the container) itself
+        if lenc[0] == 'const':
+            return False
+        return ment(lenc) or (lenc[0] == 'len' and ment(lenc[1]))
+
+    if k == 'lt':
+        if R.prove_le(need[1], need[2], bb, strict=True):
+            return 'ok', 'index < length established by dominating guards'
+        return ('undecided' if ment_len(need[2]) else 'bad'), 'cannot show %s < %s' % (describe(B, need[1]), describe(B, need[2]))
+    if k == 'le':
+        if R.prove_le(need[1], need[2], bb, strict=False):
+            return 'ok', 'bound <= length established by dominating guards'
+        return ('undecided' if ment_len(need[2]) else 'bad'), 'cannot show %s <= %s' % (describe(B, need[1]), describe(B, need[2]))
+    if k == 'range':
+        a = R.prove_le(need[1], need[2], bb, False)
+        b_ = R.prove_le(need[2], need[3], bb, False)
+        if a and b_:
+            return 'ok', 'start <= end <= length established'
+        return ('undecided' if ment_len(need[3]) else 'bad'), 'cannot show %s <= %s <= %s' % (describe(B, need[1]), describe(B, need[2]), describe(B, need[3]))
+    if k == 'range_incl':
+        a = R.prove_le(need[1], need[2], bb, False)
+        b_ = R.prove_le(need[2], need[3], bb, True)
+        if a and b_:
+            return 'ok', 'start <= end < length established'
+        return ('undecided' if ment_len(need[3]) else 'bad'), 'cannot show range within length'
+    if k == 'arith':
+        op, a, b_ = need[1], need[2], need[3]
+        ra, rb = R.range_of(a, bb), R.range_of(b_, bb)
+        tr = ty_range(B.local_ty(a['pl']['l']) if a['k'] != 'c' and not a['pl'].get('p') else a.get('ty', '')) or ty_range(
+            B.local_ty(b_['pl']['l']) if b_['k'] != 'c' and not b_['pl'].get('p') else b_.get('ty', ''))
+        if tr is None:
+            return 'undecided', 'operand type unknown'
+        if op == 'Add' and tr[1] >= 2**63 - 1 and ((rb[0] == rb[1] == 1) or (ra[0] == ra[1] == 1)):
+            return 'ok', 'increment of a 64-bit counter: 2^63 increments are unreachable'
+        if op == 'Add':
+            lo, hi = ra[0] + rb[0], ra[1] + rb[1]
+        elif op == 'Sub':
+            lo, hi = ra[0] - rb[1], ra[1] - rb[0]
+            # a - b with b <= a proven relationally
+            if lo < tr[0] and R.prove_le(canon(B, b_), canon(B, a), bb, False):
+                lo = max(lo, 0)
+        elif op == 'Mul':
+            cands = [ra[0] * rb[0], ra[0] * rb[1], ra[1] * rb[0], ra[1] * rb[1]] if INF not in (abs(ra[0]), abs(ra[1]), abs(rb[0]), abs(rb[1])) else [-INF, INF]
+            lo, hi = min(cands), max(cands)
+        elif op in ('Shl', 'Shr'):
+            bits = {255: 8, 65535: 16}.get(tr[1], 64 if tr[1] > 2**32 else 32)
+            if rb[1] < bits and rb[0] >= 0:
+                return 'ok', 'shift amount < bit width'
+            return ('undecided' if ment(canon(B, b_)) else 'bad'), 'shift amount may reach the bit width'
+        else:
+            return 'undecided', 'operator %s' % op
+        if lo >= tr[0] and hi <= tr[1]:
+            return 'ok', 'result range [%s, %s] fits the type' % (lo, hi)
+        return ('undecided' if ment(canon(B, a), canon(B, b_)) else 'bad'), '%s may overflow: operand ranges [%s,%s] and [%s,%s]' % (op, ra[0], ra[1], rb[0], rb[1])
+    if k == 'neg':
+        ra = R.range_of(need[1], bb)
+        tr = (-2**63, 2**63 - 1)
+        if ra[0] > tr[0]:
+            return 'ok', 'operand > MIN'
+        return ('undecided' if ment(canon(B, need[1])) else 'bad'), 'negation of MIN possible'
+    if k == 'nonzero':
+        ra = R.range_of(need[1], bb)
+        if ra[0] > 0 or ra[1] < 0:
+            return 'ok', 'divisor is non-zero'
+        return ('undecided' if ment(canon(B, need[1])) else 'bad'), 'divisor may be zero'
+    if k == 'unwrap':
+        t = need[1]
+        # accepted: dominated by is_some()/is_ok() true edge on the same value
+        recv = canon(B, t['args'][0])
+        from .core import dominating_edges
+        for (src, vals, dst) in dominating_edges(B, bb):
+            sb = B.switch_bool_edges(src)
+            if sb and sb[0][0] == 'call':
+                ct = sb[0][2]
+                nm = callee_of(ct)[0] or ''
+                if ct['args'] and canon(B, ct['args'][0]) == recv:
+                    if (nm.endswith('::is_some') or nm.endswith('::is_ok')) and dst == sb[1]:
+                        return 'ok', 'dominated by a successful is_some()/is_ok() test on the same value'
+                    if (nm.endswith('::is_none') or nm.endswith('::is_err')) and dst == sb[2]:
+                        return 'ok', 'dominated by a failed is_none()/is_err() test on the same value'
+        o = B.origin(t['args'][0])
+        base = o
+        while base[0] in ('payload', 'try', 'awaited', 'awaited_value', 'proj'):
+            base = base[1]
+        if base[0] == 'call' and base[1]:
+            n = base[1]
+            if n.endswith('Mutex::<T>::lock') or n.endswith('RwLock::<T>::read') or n.endswith('RwLock::<T>::write'):
+                return 'ok', 'lock poisoning: fails only after another thread already panicked'
+            if n.endswith('TryInto::try_into') or n.endswith('TryFrom::try_from'):
+                # slice -> array conversion of a slice whose length is fixed by construction
+                return 'undecided', 'conversion result unwrapped'
+        return 'bad', 'unwrap/expect on a value that is not shown to be Some/Ok'
+    if k == 'unreachable':
+        return 'bad', 'explicit panic is reachable'
+    if k == 'never':
+        return 'bad', 'indexing a map panics on a missing key'
+    if k == 'partial':
+        n, t = need[1], need[2]
+        spec = PARTIAL[n]
+        if spec[0] == 'remaining':
+            return 'undecided', 'Buf consumption (checked by the dedicated Buf accounting rule where applicable)'
+        if spec[0] in ('le_len', 'lt_len'):
+            idx = canon(B, t['args'][spec[1]])
+            ln = ('len', canon(B, t['args'][0]))
+            if R.prove_le(idx, ln, bb, strict=(spec[0] == 'lt_len')):
+                return 'ok', 'index within length'
+            return ('undecided' if ment(idx, ln) else 'bad'), 'index may exceed length'
+        if spec[0] == 'len_eq':
+            a = ('len', canon(B, t['args'][0]))
+            b_ = ('len', canon(B, t['args'][1]))
+            ra, rb = R._range_canon(a, bb, None, True, 0), R._range_canon(b_, bb, None, True, 0)
+            la = _static_len(B, t['args'][0])
+            lb = _static_len(B, t['args'][1])
+            if la is not None and lb is not None and la == lb:
+                return 'ok', 'both sides have static length %d' % la
+            if ra[0] == ra[1] == rb[0] == rb[1]:
+                return 'ok', 'lengths equal'
+            return 'undecided', 'slice lengths not shown equal (%s vs %s)' % (la, lb)
+        if spec[0] == 'not_min':
+            ra = R.range_of(t['args'][0], bb)
+            if ra[0] > -2**63:
+                return 'ok', 'operand > MIN'
+            return ('undecided' if ment(canon(B, t['args'][0])) else 'bad'), 'abs(MIN) overflows'
+        return 'undecided', 'partial API %s' % n
+    return 'undecided', 'unrecognised obligation'
+
+
+def _static_len(B, op):
+    """length of a slice operand when statically known: array type, or take(n)/split of constant size"""
+    import re
+    o = B.origin(op)
+    while o[0] == 'cast':
+        m = re.search(r'\[[^;\]]+; (\d+)\]', o[1])
+        if m:
+            return int(m.group(1))
+        o = o[3]
+    if o[0] in ('local', 'arg') and not o[2]:
+        m = re.search(r'\[[^;\]]+; (\d+)\]', B.local_ty(o[1]))
+        if m:
+            return int(m.group(1))
+    # (rest, x) = take(N)(input)?  ->  x has length N
+    base = o
+    projs = ()
+    while base[0] in ('proj', 'payload', 'try'):
+        if base[0] == 'proj':
+            projs = tuple(base[2]) + projs
+        base = base[1]
+    if base[0] == 'call' and base[1] in ('core::ops::function::FnMut::call_mut', 'nom::internal::Parser::parse', 'core::ops::function::FnOnce::call_once'):
+        t = B.blocks[base[2]]['t']
+        fo = B.origin(t['args'][0])
+        if fo[0] == 'call' and fo[1] and fo[1].startswith('nom::bytes::complete::take'):
+            n = fold(B.origin(B.blocks[fo[2]]['t']['args'][0]))
+            if n is not None and ('1' in projs or '1' in tuple(base[3])):
+                return n
+    return None
+
+
+def check_panics(ctx, B, rule, reviewed=None, kinds=None, key_prefix='PANIC'):
+    """PANIC family over one body; returns number of sites."""
+    reviewed = reviewed or {}
+    R = Ranges(B)
+    seen = {}
+    n = 0
+    for site in panic_sites(B):
+        if kinds and site['kind'] not in kinds:
+            continue
+        n += 1
+        inst = uniq_key(seen, '%s:%s' % (B.path, site['desc']))
+        verdict, detail = discharge(B, R, site)
+        where = ctx.where(B, site['bb'])
+        if verdict == 'ok':
+            ctx.ok(rule, inst, detail, where)
+        elif inst in reviewed:
+            ctx.ok(rule, inst, 'reviewed: ' + reviewed[inst], where)
+        elif verdict == 'undecided':
+            ctx.undecided(rule, inst, detail, where)
+        else:
+            ctx.bad(rule, inst, '%s site not discharged: %s' % (site['kind'], detail), where, key='%s:%s' % (key_prefix, inst))
+    return n
